@@ -183,6 +183,9 @@ Apply(s, ev) ==
     [] ev.op = "call" /\ ~s.skip -> OnCall(s, ev)
     [] ev.op = "end" /\ ~s.skip -> OnEnd(s, ev)
     [] ev.op = "endcfg" /\ ~s.skip -> OnEndCfg(s, ev)
+    \* the history of an instance (e.g. "switched with with_sampler after routing under an outdated
+    \* sampler"): no routing information - such an instance is just another instance that must agree
+    [] ev.op = "note" /\ ~s.skip -> Ok(s)
     \* a panic or an aborted run: the specification has no such step
     [] OTHER -> Div(s, ev.op, ev, <<>>)
 
